@@ -76,8 +76,10 @@ def opcode(name):
 class Contract:
     def __init__(self, fn, id, prop, target, env=(), native=None, summaries=None, inline=(), grid=None,
                  bounded_only=False, loop_unroll=0, note="", timeout_ms=10000, cover=True, max_paths=4000,
-                 invariants=None, field_types=None, canary=False, expect_refuted=None, self_cls=None, prim_args=True, bind=None, quick=True):
+                 invariants=None, field_types=None, canary=False, expect_refuted=None, self_cls=None, prim_args=True, bind=None, quick=True,
+                 heap_inputs=False):
         self.quick = quick
+        self.heap_inputs = heap_inputs  # counter-models rebuild the object graph (own-property dictionaries, prototype links)
         self.prim_args = prim_args
         self.bind = bind or {}
         self.fn, self.id, self.prop, self.target = fn, id, prop, target
@@ -175,6 +177,40 @@ def is_number(v):
     return isinstance(v, (int, float)) and not isinstance(v, bool)
 
 
+GHOST = {}      # native runs: written by recording wrappers that a contract's native factory puts around real callees
+
+
+def ghost_set(name, value):
+    """ghost variable written by callee summaries in proofs, by recording wrappers natively"""
+    GHOST[name] = value
+
+
+def ghost_get(name, default=None):
+    return GHOST.get(name, default)
+
+
+def heap_snapshot():
+    """ghost: the heap at this point (frame conditions are proof-only; native runs check the stated values only)"""
+    return None
+
+
+def heap_unchanged(snap, *allowed):
+    return True
+
+
+def dict_after_store(snap, d, key, value):
+    return key in d and (d[key] is value or same_value(d[key], value))
+
+
+def dict_after_remove(snap, d, key):
+    return key not in d
+
+
+def same_ref(a, b):
+    """identity of two object references / singletons (None, UNDEFINED, NULL)"""
+    return a is b
+
+
 def same_value(a, b):
     """JS-level sameness of two engine values: numbers by value (int 3 == float 3.0, NaN same as NaN,
     +0 differs from -0), everything else by Python equality of the same type / identity."""
@@ -240,6 +276,12 @@ def es_outcome(f, *args):
 
 def pure(fn):
     """spec function without side effects: proofs merge its internal paths into one term"""
+    return fn
+
+
+def recursive(fn):
+    """recursive spec function over the heap: proofs see an uninterpreted function (per heap state) with
+    the one-step unfolding of the body assumed at every application; executable natively"""
     return fn
 
 
